@@ -7,10 +7,10 @@ from ...core.time import TimeDependent
 
 class TDRedfieldRelaxationTensor(RedfieldRelaxationTensor, TimeDependent):
 
-    # FIXME: mimick the time-independent case
-    Lm = None  # we isolate the operators defined by inheritance as time-independent
-    Ld = None
-    Km = None
+    # The operators Km, Lm and Ld are the basis managed properties inherited 
+    # from the time-independent tensor (Lm and Ld carry the time as their 
+    # first index here). As plain attributes they were not brought to 
+    # the current basis when read inside a basis context.
     
     def _implementation(self, ham, sbi):
         """ Reference implementation, completely in Python
@@ -237,14 +237,18 @@ class TDRedfieldRelaxationTensor(RedfieldRelaxationTensor, TimeDependent):
         dim = SS.shape[0]
 
         if not self._data_initialized:
+            # (the stored arrays are transformed; reading the managed 
+            # properties here would start another transformation)
+            if numpy.iscomplexobj(SS) and not numpy.iscomplexobj(self._Km):
+                self._Km = self._Km.astype(numpy.complex128)
             for tt in range(self.Nt):
-                for m in range(self.Km.shape[0]):
-                    self.Lm[tt, m, :, :] = \
-                    numpy.dot(S1,numpy.dot(self.Lm[tt, m, :, :],SS))
-                    self.Ld[tt, m, :, :] = \
-                    numpy.dot(S1,numpy.dot(self.Ld[tt, m, :, :],SS))            
-            for m in range(self.Km.shape[0]):
-                self.Km[m, :, :] = numpy.dot(S1,numpy.dot(self.Km[m, :, :],SS))
+                for m in range(self._Km.shape[0]):
+                    self._Lm[tt, m, :, :] = \
+                    numpy.dot(S1,numpy.dot(self._Lm[tt, m, :, :],SS))
+                    self._Ld[tt, m, :, :] = \
+                    numpy.dot(S1,numpy.dot(self._Ld[tt, m, :, :],SS))            
+            for m in range(self._Km.shape[0]):
+                self._Km[m, :, :] = numpy.dot(S1,numpy.dot(self._Km[m, :, :],SS))
                 
             return
         
